@@ -512,85 +512,129 @@ def live_deep_ops():
     return LIVE_DEEP
 
 
-def run_live(job, res):
-    """Depth-first search over operation histories applied to ONE live in-memory table
-    object.  The state (SQLite memory database + whatever the table object keeps between
-    calls) is snapshotted by os.fork(): every node of the history tree is a process that
-    inherited its prefix's table, so no prefix is re-executed and nothing is reopened."""
-    from vt import histfork
-    _imports()
-    levels = [OPS_FULL] * job['depth'] if not job.get('deep') else \
-        [live_deep_ops()] * job['depth']
-    table = URLTableHookWrapper(SQLiteURLTable(':memory:'))
-    ref = RefTable()
-    found = []
+class LiveTable:
+    """One live in-memory table object whose complete state can be snapshotted and restored:
+    the SQLite memory database through sqlite3's serialize()/deserialize() on the engine's
+    single connection, and every attribute of the wpull table object and its hook wrapper
+    (except the engine plumbing) by deepcopy.  Restoring is verified byte-for-byte."""
+    SKIP = ('_engine', '_session_maker_instance', 'url_table')
 
-    def apply(op):
+    def __init__(self):
+        import copy
+        self.copy = copy
+        self.inner = SQLiteURLTable(':memory:')
+        self.table = URLTableHookWrapper(self.inner)
+        self.ref = RefTable()
+        self.pinned = []
+
+    def _raw(self):
+        return self.inner._engine.raw_connection()
+
+    def _attrs(self, obj):
+        out = {}
+        for k, v in obj.__dict__.items():
+            if k in self.SKIP:
+                continue
+            try:
+                out[k] = self.copy.deepcopy(v)
+            except Exception:       # noqa - not copyable: shared by reference, reported
+                if k not in self.pinned:
+                    self.pinned.append(k)
+        return out
+
+    def snapshot(self):
+        rc = self._raw()
         try:
-            v, ret = apply_op(table, ref, op)
+            data = rc.driver_connection.serialize()
+        finally:
+            rc.close()
+        return data, self._attrs(self.inner), self._attrs(self.table), self.ref.copy()
+
+    def restore(self, snap):
+        data, ia, wa, ref = snap
+        rc = self._raw()
+        try:
+            rc.driver_connection.deserialize(data)
+            if rc.driver_connection.serialize() != data:
+                raise RuntimeError('live table: restored database differs from snapshot')
+        finally:
+            rc.close()
+        for obj, attrs in ((self.inner, ia), (self.table, wa)):
+            for k in list(obj.__dict__):
+                if k not in attrs and k not in self.SKIP and k not in self.pinned:
+                    del obj.__dict__[k]
+            for k, v in attrs.items():
+                obj.__dict__[k] = self.copy.deepcopy(v)
+        self.ref = ref.copy()
+
+    def apply(self, op):
+        try:
+            v, ret = apply_op(self.table, self.ref, op)
             if v is None:
-                v = compare_all(table, ref)
+                v = compare_all(self.table, self.ref)
         except Exception as e:      # noqa
             v = 'operation raised %s: %s' % (type(e).__name__, e)
         return v
 
-    def node(hist):
-        """runs in the fork that owns the state after ``hist``; -> [count, violations]"""
-        n, viols = 0, []
+    def close(self):
+        self.table.close()
+
+
+def run_live(job, res):
+    """Depth-first search over operation histories applied to ONE live table object (never
+    reopened): state the object keeps in memory between calls is part of the explored state."""
+    _imports()
+    levels = [live_deep_ops() if job.get('deep') else OPS_FULL] * job['depth']
+    lt = LiveTable()
+    count = [0]
+    viols = []
+
+    def dfs(hist):
+        snap = lt.snapshot()
         for op in levels[len(hist)]:
-            def child(op=op):
-                v = apply(op)
-                if v:
-                    return [1, [[v, hist + [op]]]]
-                if len(hist) + 1 < len(levels):
-                    c = node(hist + [op])
-                    return [1 + c[0], c[1][:3]]
-                return [1, []]
-            r = histfork.in_fork(child, 600)
-            if isinstance(r, dict):
-                viols.append(['operation hangs or kills the interpreter', hist + [op]])
-                n += 1
-            else:
-                n += r[0]
-                viols.extend(r[1])
+            v = lt.apply(op)
+            count[0] += 1
+            if v:
+                viols.append([v, hist + [op]])
+            elif len(hist) + 1 < len(levels):
+                dfs(hist + [op])
+            lt.restore(snap)
             if len(viols) > 6:
-                break
-        return [n, viols]
+                return
 
     try:
-        first = [levels[0][i] for i in job['first'] if i < len(levels[0])]
-        if len(first) == len(job['first']):
-            def top():
-                for op in first:
-                    v = apply(op)
-                    if v:
-                        return [1, [[v, first]]]
-                c = node(list(first))
-                return [len(first) + c[0], c[1]]
-            r = histfork.in_fork(top, 3000)
-            if isinstance(r, dict):
-                raise RuntimeError('live search died: %r' % (r,))
-            res['evaluations'] += r[0]
-            res['transitions'] += r[0]
-            res['extra']['live_histories'] = res['extra'].get('live_histories', 0) + r[0]
-            for v, hist in r[1]:
-                k = len(hist) - 1
-                sig = 'C14:live:%s:%s' % (' '.join(v.split(' ')[:4])[:50], hist[k][0])
-                if not any(x['signature'] == sig for x in res['violations']) and \
-                        len(res['violations']) < 5:
-                    res['violations'].append(dict(
-                        violation='%s [one live table object, after %s]' % (
-                            v, summarize(hist)),
-                        signature=sig, history=hist, kind='live'))
-            res['states'].add(h64(('live', tuple(job['first']), job['depth'],
-                                   bool(job.get('deep')))))
-            res['distinct'] = set(res['states'])
-            res['outcomes']['live-ok'] = r[0]
-            res['samples'].append(dict(mode='one live table object (fork tree)',
-                                       first_ops=summarize(first), transitions=r[0],
-                                       depth=job['depth'], deep=bool(job.get('deep'))))
+        first = [levels[0][i] for i in job['first']]
+        ok = True
+        for k, op in enumerate(first):
+            v = lt.apply(op)
+            count[0] += 1
+            if v:
+                viols.append([v, first[:k + 1]])
+                ok = False
+                break
+        if ok:
+            dfs(list(first))
+        res['evaluations'] += count[0]
+        res['transitions'] += count[0]
+        res['extra']['live_transitions'] = count[0]
+        if lt.pinned:
+            res['extra']['live_attributes_not_copied'] = sorted(lt.pinned)
+        for v, hist in viols:
+            sig = 'C14:live:%s:%s' % (' '.join(v.split(' ')[:4])[:50], hist[-1][0])
+            if not any(x['signature'] == sig for x in res['violations']) and \
+                    len(res['violations']) < 5:
+                res['violations'].append(dict(
+                    violation='%s [one live table object, after %s]' % (v, summarize(hist)),
+                    signature=sig, history=hist, kind='live'))
+        res['states'].add(h64(('live', tuple(job['first']), job['depth'],
+                               bool(job.get('deep')))))
+        res['distinct'] = set(res['states'])
+        res['outcomes']['live-ok'] = count[0]
+        res['samples'].append(dict(mode='one live table object', first_ops=summarize(first),
+                                   transitions=count[0], depth=job['depth'],
+                                   deep=bool(job.get('deep'))))
     finally:
-        table.close()
+        lt.close()
     return res
 
 
@@ -684,7 +728,8 @@ def describe(tier):
              'with sqlite3 directly; every transition closes and re-opens the on-disk table; '
              'plus every history of depth 3 (4) over the full alphabet, and of depth 5 (7) over '
              'the 9 mutators of the status machine, applied to ONE live in-memory table object '
-             'without reopening (fork tree: each node inherits its prefix\'s live object).  '
+             'without reopening (DFS with snapshot/restore of the memory database and of every '
+             'attribute of the table object).  '
              'distinct = distinct database states'
              % (len(OPS_FULL), 3 if tier == 'quick' else 4, len(OPS_REDUCED)),
         bounds=dict(depth=3 if tier == 'quick' else 4, ops=len(OPS_FULL)),
